@@ -296,6 +296,23 @@ def rule_member_mean(ctx, rid):
                     ok = _is_member_mean(val, ls.var)
                     if ok is not True:
                         bad = (b, ok)
+        # all columns at once: imfs[...] = np.mean(np.array([r[:, :k] for r in res]), axis=0)
+        v = e.value
+        fs = _full_store(v)
+        if fs is not None:
+            v = fs[1]
+        red = (v[0] == 'meth' and v[1] in ('mean', 'sum', 'median', 'max', 'min', 'std', 'var')) or \
+            (v[0] == 'call' and v[1] in ('numpy.mean', 'numpy.average', 'numpy.sum', 'numpy.median', 'numpy.max',
+                                         'numpy.min', 'numpy.nanmean'))
+        if red:
+            arr = v[2] if v[0] == 'meth' else (v[2][0] if v[2] else NONE)
+            if arr[0] == 'call' and arr[1] in ('numpy.array', 'numpy.asarray', 'numpy.stack', 'numpy.vstack') and arr[2]:
+                arr = arr[2][0]
+            if arr[0] == 'comp':
+                found += 1
+                ok = _is_member_mean(v, None, block=True)
+                if ok is not True:
+                    bad = (e.state, ok)
     c = 'ensemble column i == mean over members of column i'
     if bad:
         ctx.violation(rid, fi, c, 'the per-IMF reduction over members is not a mean of the same column: %s' % bad[1],
@@ -355,7 +372,22 @@ def rule_member_mean(ctx, rid):
         ctx.passed(rid, fi2, c, '%d reduction site(s)' % n)
 
 
-def _is_member_mean(val, var):
+_ALLOCS = ('numpy.empty', 'numpy.zeros', 'numpy.ones', 'numpy.full', 'numpy.empty_like', 'numpy.zeros_like',
+           'numpy.ones_like', 'numpy.full_like')
+
+
+def _full_store(t):
+    """A = np.empty(shape); A[...] = V  (or A[:] / A[:, :])  ->  (allocation, V): every element is replaced by V"""
+    if t[0] != 'setitem' or not (t[1][0] == 'call' and t[1][1] in _ALLOCS):
+        return None
+    full = ('slice', NONE, NONE, NONE)
+    idx = t[2]
+    if idx in (C(Ellipsis), full) or (idx[0] == 'tuple' and idx[1] and all(x in (full, C(Ellipsis)) for x in idx[1])):
+        return t[1], t[3]
+    return None
+
+
+def _is_member_mean(val, var, block=False):
     """np.array([r[:, i] for r in res]).mean(axis=0) / np.mean([r[:, i] for r in res], axis=0) with the same
     column index i."""
     if val[0] == 'meth':
@@ -378,6 +410,15 @@ def _is_member_mean(val, var):
     comp = arr
     elt = comp[2]
     bv = comp[3][0][0]
+    if block:
+        # the members stacked whole, or cut to their leading columns: np.mean([r[:, :k] for r in res], axis=0)
+        if elt == bv:
+            return True
+        if elt[0] == 'sub' and elt[1] == bv and elt[2][0] == 'tuple' and len(elt[2][1]) == 2 \
+                and elt[2][1][0] == ('slice', NONE, NONE, NONE) and elt[2][1][1][0] == 'slice' \
+                and elt[2][1][1][1] in (NONE, C(0)) and elt[2][1][1][3] in (NONE, C(1)):
+            return True
+        return 'the members are not stacked by their leading columns: %s' % show(elt)[:40]
     if not (elt[0] == 'sub' and elt[1] == bv and elt[2][0] == 'tuple' and len(elt[2][1]) == 2
             and elt[2][1][1] == var):
         return 'member column index differs from the output column index: %s' % show(elt)[:40]
@@ -482,6 +523,13 @@ def rule_no_shortcut(ctx, rid):
         v = e.value
         if v[0] == 's' and '@F' in v[1]:
             continue                        # accumulator filled by the per-IMF loop (C08.R2 checks its content)
+        fs = _full_store(v)
+        if fs is not None:
+            v = fs[1]
+        if _is_member_mean(v, None, block=True) is True or (
+                (v[0] == 'meth' or (v[0] == 'call' and v[1].startswith('numpy.'))) and
+                any(x[0] == 'comp' for x in subterms(v))):
+            continue                        # a reduction of the stacked members (C08.R2 checks which)
         if v[0] == 'call' and v[1] == 'emd.sift.sift':
             kw = dict(v[3])
             missing = [f for f in ('sift_thresh', 'max_imfs', 'imf_opts', 'envelope_opts', 'extrema_opts')
